@@ -226,12 +226,12 @@ def export_cases(tier, esm, stats, sandbox, twice=False):
             open(os.path.join(d, rel), "w").write(text)
         before[u.name] = snapshot(d)
         reqs.append({"name": u.name, "cwd": d, "dir": DIRS[u.meta["case"]["dir"]].replace("{ABS}", d)})
-    res = {r_["name"]: r_["result"] for r_ in c.export(reqs)}
-    # the same process exports the modules whose paths leave the directory once more, into a directory at another
-    # depth: what is written there must not depend on the first export
+    # the same process (one run of the runner) exports the modules whose paths leave the directory once more, into a
+    # directory at another depth: what is written there must not depend on the first export
     again = [dict(r_, dir="deeper/nested/out2") for r_, u in zip(reqs, units) if twice and "escape" in (u.meta["case"]["dplace"], u.meta["case"]["rplace"])]
-    for r_ in c.export(again) if again else []:
-        if r_["result"] != "Ok":
+    res = {}
+    for r_ in c.export(reqs + again):
+        if r_["name"] not in res or r_["result"] != "Ok":
             res[r_["name"]] = r_["result"]
     return units, obs, res, before
 
